@@ -8,10 +8,10 @@ import (
 
 	"github.com/paulsonkoly/chess-3/board"
 	"github.com/paulsonkoly/chess-3/chess"
-	"github.com/paulsonkoly/chess-3/move"
 	"github.com/paulsonkoly/chess-3/search"
 	"github.com/paulsonkoly/chess-3/transp"
 
+	"verif/harness/conv"
 	"verif/harness/ev"
 	"verif/harness/ref"
 )
@@ -168,12 +168,12 @@ func plant(s *search.Search, root *Root, poison []PoisonEntry) {
 				ok = false
 				break
 			}
-			b.MakeMove(move.Move(m))
+			b.MakeMove(conv.M(m))
 			cur = cur.Make(m)
 			cur = cur.Normalised()
 		}
 		if ok {
-			s.VerifTT().Insert(b.Hash(), s.VerifGen(), chess.Depth(pe.Depth), 0, move.Move(pe.Move), chess.Score(pe.Value), transp.Type(pe.Type))
+			s.VerifTT().Insert(b.Hash(), s.VerifGen(), chess.Depth(pe.Depth), 0, conv.FromTriple(pe.Move), chess.Score(pe.Value), transp.Type(pe.Type))
 		}
 	}
 }
